@@ -166,6 +166,15 @@ def spec_call(engine, st, name, node):
         S = domain_of(engine, engine.deref(st, engine.eval(st, node.args[0])))
         sz = engine.deref(st, engine.eval(st, node.args[1]))
         return V(Int, [engine.prodset(S, sz)])
+    if name == "count_in":
+        # count_in(xs, k, t) = #{p < t : xs[p] == k} for a sequence of scalars
+        from . import colsum as CS
+
+        SUM, CNT = CS.theory(engine)
+        xs = engine.deref(st, engine.eval(st, node.args[0]))
+        if not (isinstance(xs, V) and isinstance(xs.t, Ty.List) and len(xs.c) == 2):
+            raise Unsupported("count_in of a non-scalar sequence")
+        return V(Int, [CNT(xs.c[1], engine.keyterm(engine.deref(st, engine.eval(st, node.args[1]))), engine.num(engine.eval(st, node.args[2])))])
     if name in ("colsum", "colcount"):
         # colsum(rows, field, t) = sum of rows[p][field] for p < t;  colcount(rows, field, k, t) = #{p < t : rows[p][field] == k}
         from . import colsum as CS
@@ -645,6 +654,18 @@ def builtin_call(engine, st, name, node):
                 return engine.e_List(st, ast.List(elts=[], ctx=ast.Load())) if False else list_from_values(engine, st, parts)
         if isinstance(v, V) and isinstance(v.t, Ty.ODict):
             return engine.alloc(st, V(v.t.keys_t, v.c[: len(v.t.keys_t.sorts())]))
+        if isinstance(v, V) and isinstance(v.t, (Ty.Map, Ty.Set)):
+            # the keys of a dict / elements of a set whose order is not modelled: some duplicate-free listing of exactly them
+            dom = v.c[0]
+            out = Ty.havoc(Ty.List(Key), f"listing@{engine.line(node)}")
+            m, b = out.c
+            p_, q_, k_ = z3.Ints("ls!p ls!q ls!k")
+            where = z3.Function(f"ls!where!{engine.new_id()}", Ty.IntS, Ty.IntS)
+            st.assume(m >= 0)
+            st.assume(z3.ForAll([p_], z3.Implies(z3.And(0 <= p_, p_ < m), dom[b[p_]]), patterns=[b[p_]]))
+            st.assume(z3.ForAll([p_, q_], z3.Implies(z3.And(0 <= p_, p_ < q_, q_ < m), b[p_] != b[q_])))
+            st.assume(z3.ForAll([k_], z3.Implies(dom[k_], z3.And(0 <= where(k_), where(k_) < m, b[where(k_)] == k_)), patterns=[dom[k_]]))
+            return engine.alloc(st, out)
         raise Unsupported(f"{name}() of {v}")
     if name in ("set", "frozenset"):
         if not node.args:
